@@ -227,8 +227,15 @@ impl Series1 {
                 if !m.is_finite() {
                     continue;
                 }
-                let x = x0 + (y_equals - v0) / m;
-                crossings.push(x);
+                if m == 0.0 {
+                    // A flat segment lying on the level: every point of it is on the level, report
+                    // both of its ends instead of dividing by the zero slope
+                    crossings.push(x0);
+                    crossings.push(x1);
+                } else {
+                    let x = x0 + (y_equals - v0) / m;
+                    crossings.push(x);
+                }
             }
         }
 
